@@ -4,7 +4,7 @@
    Inputs of the model: [start], [stop] = the two points after raysect's Point3D.transform (raysect is not
    modelled; the harness obtains them from the same raysect call), [len] = the double the implementation
    obtained for |stop - start| (checked by len_ok). *)
-Require Import Cherab.Common.Qx Cherab.Model.C10_RayTransfer.
+Require Import Cherab.Common.Qx Cherab.Model.C10_RayTransfer Cherab.Model.C10_Pipeline.
 From Coq Require Import Qabs Qround.
 Open Scope Q_scope.
 
@@ -120,3 +120,18 @@ Definition check_phi (g : cylgrid) (x y phi : Q) : bool :=
 Definition check_chord (steps start stop : vec) (len : Q) (c : cell) (fr : Q) : bool :=
   let d := vsub stop start in
   Qeq_bool (chord_cart steps start (vscale (/ len) d) len c) (fr * len).
+
+(* ---- pipelines.py: a history of observations driven through the real pipeline object (initialise / pixel_processor /
+   add_sample / update / finalise) against the model's history, every observation's matrix, relative 2^-40 ---- *)
+Definition mk_sample (s : list Q * Q) : sample := (spec_of_list (fst s), snd s).
+Definition close40 (e o : Q) : bool := Qle_bool (Qabs (o - e)) (pow2 (-40) * Qabs e).
+Definition row_ok (m : spectrum) (out : list Q) : bool := forallb2 (fun j o => close40 (m j) o) (zrange (length out)) out.
+(* the state before the history is arbitrary (here: a pipeline that has seen 7 samples) *)
+Definition check_p0 (h : list (pkind * list (list (list Q * Q)))) (outs : list (list Q)) : bool :=
+  forallb2 row_ok
+    (p0_history {| p0_samples := 7; p0_matrix := (fun _ => 3); p0_kind := Power |}
+                (map (fun kt => (fst kt, map (map mk_sample) (snd kt))) h)) outs.
+Definition check_pn (h : list (pkind * Z * list (pixel * list (list Q * Q)))) (outs : list (list (pixel * list Q))) : bool :=
+  forallb2 (fun m rows => forallb (fun pr : pixel * list Q => row_ok (m (fst pr)) (snd pr)) rows)
+    (pn_history {| pn_samples := 7; pn_matrix := (fun _ _ => 3); pn_kind := Power |}
+                (map (fun kt => (fst kt, map (fun pt : pixel * list (list Q * Q) => (fst pt, map mk_sample (snd pt))) (snd kt))) h)) outs.
